@@ -30,6 +30,10 @@ MUTANTS = [
                ["C04.undo_post"], ["C01", "C02", "C03", "C20"]),
  ("apply", PM, "            matches(&remove_content[prefix_context..(remove_content.len() - suffix_context)],\n                    &modified_file.content, target_line + prefix_context as isize)",
                "            matches(&remove_content, &modified_file.content, target_line)", ["C04.try_rollback"], ["C01", "C02", "C03", "C20"]),
+ # rollback picks the fuzz LIMIT (always 0 in rollback) instead of the level recorded in the previous report (third-round seed C04b);
+ # C02/C03/C20 obligations of the same function become conditional (undecided), they must not be charged
+ ("apply", PM, "HunkApplyReport::Applied { fuzz, .. } =>\n                        fuzz..=fuzz,", "HunkApplyReport::Applied { .. } =>\n                        fuzz..=fuzz,",
+               ["C04.rollback_reports"], ["C02", "C03", "C20"]),
  ("distributor", "src/rapidquilt/apply/parallel.rs",
   "            let filename_root = self.find_root(filename_index);\n            let new_filename_root = self.find_root(new_filename_index);\n            if filename_root < new_filename_root {\n                self.connected_components[new_filename_root] = filename_root;\n            } else {\n                self.connected_components[filename_root] = new_filename_root;\n            }\n",
   "            if filename_index < new_filename_index {\n                let i = self.connected_components[new_filename_index];\n                self.connected_components[i] = filename_index;\n            } else {\n                let i = self.connected_components[filename_index];\n                self.connected_components[i] = new_filename_index;\n            }\n",
